@@ -274,6 +274,7 @@ func (v *ViewPort) Resize(x, y, width, height int) {
 
 	v.width = width
 	v.height = height
+	v.ValidateView()
 }
 
 // SetView is called during setup, to provide the parent View.
